@@ -31,9 +31,11 @@ def main():
     out_dir, letter, pid = a[0], a[1], a[2]
     checks = [pid]
     keep = None
+    smart = False
     if "--checks" in a:
         v = a[a.index("--checks") + 1]
-        checks = ALL if v == "ALL" else ([pid] + RELATED[pid] if v == "RELATED" else v.split(","))
+        checks = ALL if v == "ALL" else ([pid] + RELATED[pid] if v == "RELATED" else ([pid] if v == "SMART" else v.split(",")))
+        smart = v == "SMART"
     if "--keep-as" in a:
         keep = a[a.index("--keep-as") + 1]
     patch = os.path.join(out_dir, f"change{letter}.diff")
@@ -72,7 +74,9 @@ def main():
         confirmed = rc0 == 0 and rct == 0 and rc1 != 0
         print("CONFIRMED" if confirmed else "NOT CONFIRMED")
         caught = {}
-        for c in checks:
+        queue = list(checks)
+        while queue:
+            c = queue.pop(0)
             t0 = time.time()
             rc, o = sh([os.path.join(VERIF, "check"), c, "--tier", "quick"], VERIF, env)
             viol = [l for l in o.splitlines() if l.startswith("VIOLATION")]
@@ -82,6 +86,11 @@ def main():
             print(f"  {c}: {flag} rc={rc} {first[:200]}")
             if rc == 2:
                 print(o[-800:])
+            if smart and c == pid and not (rc == 1 and viol):
+                # the property's own check is silent: find out which check does catch it (related ones first, then all others)
+                queue = RELATED[pid] + [x for x in ALL if x != pid and x not in RELATED[pid]]
+            elif smart and c != pid and rc == 1 and viol:
+                queue = []
         meta["checks"] = caught
         meta["caught_by"] = [c for c, v in caught.items() if v["rc"] == 1 and v["violations_printed"]]
         meta["confirmed"] = confirmed
